@@ -5,7 +5,7 @@ receivers; outcomes validated by TLC against FaultTrace / DeltaOps!GateOK)."""
 import json
 import random
 
-from vlib import Broken, Verdict, read_ndjson, write_ndjson, require_coverage
+from vlib import unreproduced as vlib_unreproduced, Broken, Verdict, read_ndjson, write_ndjson, require_coverage
 
 FAULT_ACTIONS = ["Sender", "NoFault", "FlipLiteral", "SwapRef", "DupToken", "DropToken", "ReorderTokens", "Truncate",
                  "FlipTrailer", "BasisChanged", "Receiver"]
@@ -128,8 +128,7 @@ def check(w):
         again = [byid[i] for i in sorted(rej) if i in byid]
         obs2, _ = run(w, again, "confirm")
         rej2, _, _ = validate(w, obs2, "confirm")
-        if set(rej) - set(rej2):
-            raise Broken("rejections not reproduced on re-run: %s" % sorted(set(rej) - set(rej2))[:10])
+        vlib_unreproduced(v, rej, rej2)
         for o in obs2:
             if o["id"] in rej2:
                 v.violation(sig(o), {"scenario": o["scn"], "observed": {k: o[k] for k in ("result", "err", "dst", "denotes", "trailer", "hadold", "temps")}})
